@@ -149,12 +149,12 @@ var (
 )
 
 type env struct {
-	c       *core.Ctx
-	surf    surface
-	safe    map[reflect.Type]string
-	n       int
-	tmpl    *template.Template
-	fsroot  string
+	c      *core.Ctx
+	surf   surface
+	safe   map[reflect.Type]string
+	n      int
+	tmpl   *template.Template
+	fsroot string
 }
 
 // benign builds a harmless value of type t; ok=false if the type cannot be provided.
@@ -286,13 +286,23 @@ func (e *env) tainted(v reflect.Value, p string, depth int) (bool, string) {
 	switch t.Kind() {
 	case reflect.Ptr:
 		if t == reflect.TypeOf((*template.Template)(nil)) && !v.IsNil() {
-			var out safehtml.HTML
-			var err error
-			core.Recover(func() { out, err = v.Interface().(*template.Template).ExecuteToHTML(nil) })
-			if err == nil && strings.Contains(out.String(), p) {
-				return true, fmt.Sprintf("template executing to HTML %q", out.String())
-			}
-			return false, ""
+			// the template itself and every template associated with it
+			// (template text is markup by definition: the engine only normalises it, so the
+			// marker at the start of the payload decides)
+			var hit string
+			core.Recover(func() {
+				tm := v.Interface().(*template.Template)
+				for _, x := range append([]*template.Template{tm}, tm.Templates()...) {
+					if x == nil {
+						continue
+					}
+					if out, err := x.ExecuteToHTML(nil); err == nil && strings.Contains(out.String(), strings.TrimSuffix(p, payloadTail)) {
+						hit = fmt.Sprintf("template %q executing to HTML %q", x.Name(), out.String())
+						return
+					}
+				}
+			})
+			return hit != "", hit
 		}
 		if !v.IsNil() {
 			return e.tainted(v.Elem(), p, depth+1)
@@ -345,63 +355,100 @@ func (e *env) probe(name string, fn reflect.Value, recv *reflect.Value) {
 	if len(carriers) == 0 {
 		variants = [][]int{nil}
 	}
-	for _, hot := range variants {
-		e.n++
-		p := payload(e.n)
-		args := make([]reflect.Value, 0, nin)
-		ok := true
-		for i := 0; i < nin; i++ {
-			if recv != nil && i == 0 {
-				args = append(args, *recv)
+	// a second round passes the receiver itself wherever a parameter has its type
+	// (t.M(t, ...)): helpers that expect "a template of this set" only misbehave then
+	aliasRounds := 1
+	if recv != nil {
+		for i := start; i < nin; i++ {
+			if ft.In(i) == recv.Type() {
+				aliasRounds = 2
+			}
+		}
+	}
+	for round := 0; round < aliasRounds; round++ {
+		for _, hot := range variants {
+			if recv != nil && recv.Type() == reflect.TypeOf((*template.Template)(nil)) {
+				// a fresh receiver: judging the previous one has executed (and frozen) it
+				nr := reflect.ValueOf(template.New("recv"))
+				recv = &nr
+			}
+			e.n++
+			p := payload(e.n)
+			args := make([]reflect.Value, 0, nin)
+			ok := true
+			for i := 0; i < nin; i++ {
+				if recv != nil && i == 0 {
+					args = append(args, *recv)
+					continue
+				}
+				pt := ft.In(i)
+				variadic := ft.IsVariadic() && i == nin-1
+				if variadic {
+					pt = pt.Elem()
+				}
+				isHot := false
+				for _, h := range hot {
+					if h == i {
+						isHot = true
+					}
+				}
+				var v reflect.Value
+				var got bool
+				if round == 1 && !isHot && pt == recv.Type() {
+					args = append(args, *recv)
+					continue
+				}
+				if isHot {
+					v, got = e.hostile(pt, p)
+				} else if v, got = e.benign(pt); !got {
+					v, got = e.hostile(pt, "benign")
+				}
+				if !got {
+					ok = false
+					break
+				}
+				args = append(args, v)
+			}
+			if !ok {
+				e.c.Hist("probe", "skipped: parameter type cannot be provided")
+				e.c.Count("functions_not_callable:"+name, 1)
+				return
+			}
+			e.c.Eval(1)
+			e.c.DistinctS(name, fmt.Sprint(hot))
+			var outs []reflect.Value
+			pn := core.Recover(func() { outs = fn.Call(args) })
+			if pn != nil {
+				e.c.Hist("probe", "panicked (rejected)")
 				continue
 			}
-			pt := ft.In(i)
-			variadic := ft.IsVariadic() && i == nin-1
-			if variadic {
-				pt = pt.Elem()
-			}
-			isHot := false
-			for _, h := range hot {
-				if h == i {
-					isHot = true
+			e.c.Hist("probe", "returned")
+			for _, o := range outs {
+				if b, what := e.tainted(o, p, 0); b {
+					report(e.c, kase{Clause: "taint", Item: name, Detail: fmt.Sprintf("payload in parameters %v", hot)}, "%s called with the caller-supplied string %q (parameters %v) returned a %s: unsanitized caller text inside a safe type", name, p, hot, what)
 				}
 			}
-			var v reflect.Value
-			var got bool
-			if isHot {
-				v, got = e.hostile(pt, p)
-			} else if v, got = e.benign(pt); !got {
-				v, got = e.hostile(pt, "benign")
+			// mutation of a template that was passed as an argument (e.g. a helper that parses
+			// caller text into it)
+			for i, a := range args {
+				if recv != nil && i == 0 {
+					continue
+				}
+				if a.IsValid() && a.Type() == reflect.TypeOf((*template.Template)(nil)) && !a.IsNil() {
+					if b, what := e.tainted(a, p, 0); b {
+						report(e.c, kase{Clause: "mutation", Item: name}, "%s called with the caller-supplied string %q changed the template passed as argument %d: %s", name, p, i, what)
+					}
+				}
 			}
-			if !got {
-				ok = false
-				break
-			}
-			args = append(args, v)
-		}
-		if !ok {
-			e.c.Hist("probe", "skipped: parameter type cannot be provided")
-			e.c.Count("functions_not_callable:"+name, 1)
-			return
-		}
-		e.c.Eval(1)
-		e.c.DistinctS(name, fmt.Sprint(hot))
-		var outs []reflect.Value
-		pn := core.Recover(func() { outs = fn.Call(args) })
-		if pn != nil {
-			e.c.Hist("probe", "panicked (rejected)")
-			continue
-		}
-		e.c.Hist("probe", "returned")
-		for _, o := range outs {
-			if b, what := e.tainted(o, p, 0); b {
-				report(e.c, kase{Clause: "taint", Item: name, Detail: fmt.Sprintf("payload in parameters %v", hot)}, "%s called with the caller-supplied string %q (parameters %v) returned a %s: unsanitized caller text inside a safe type", name, p, hot, what)
-			}
-		}
-		// mutation through pointer receivers
-		if recv != nil && recv.Kind() == reflect.Ptr {
-			if b, what := e.tainted(recv.Elem(), p, 0); b {
-				report(e.c, kase{Clause: "mutation", Item: name}, "method %s stored the caller-supplied string %q in its receiver: %s", name, p, what)
+			// mutation through pointer receivers
+			if recv != nil && recv.Kind() == reflect.Ptr {
+				rv := recv.Elem()
+				if recv.Type() == reflect.TypeOf((*template.Template)(nil)) {
+					rv = *recv // judged as a template: by what it and its set execute to
+				}
+				if b, what := e.tainted(rv, p, 0); b {
+					report(e.c, kase{Clause: "mutation", Item: name}, "method %s stored the caller-supplied string %q in its receiver: %s", name, p, what)
+				}
 			}
 		}
 	}
